@@ -35,6 +35,36 @@ def pool_batch(acc, batch, prop=None, bound=1):
             acc.samples.append(dict(scenario=json.loads(json.dumps(sc, default=str)), executions=stats["executions"], distinct_outcomes=len(outcomes)))
 
 
+def prune_validation_batch(acc, batch, prop=None, bound=1):
+    """Soundness check of the state-hash pruning: the same scenario explored with and without pruning must yield the same set
+    of terminal observations (final states, peak of live processes, violations)."""
+    from mc.runner import worker_scratch
+
+    scratch = worker_scratch("pool")
+    for sc in batch:
+        obs = {}
+        for prune in (True, False):
+            seen = set()
+            stats = dict(executions=0, choice_points=0, pruned=0, transitions=0, states=set())
+
+            def on_exec(ex, points, seen=seen):
+                vs = sorted((p, w) for p, w, _ in ex.violations + ex.final_checks())
+                # (the peak of live processes is a path property, not a state property: it is judged by the monitor at every spawn and is
+                # deliberately not part of what must coincide)
+                seen.add((tuple(ex.state_name(i) for i in range(ex.n)), tuple(vs)))
+
+            poolx.explore(sc, scratch, bound, stats, on_exec, prune=prune)
+            obs[prune] = (seen, stats["executions"])
+        same = obs[True][0] == obs[False][0]
+        acc.case(key=json.dumps(sc, sort_keys=True, default=str), outcome=f"prune-validation same={same}", nontrivial=True)
+        acc.extra["prune_validated_scenarios"] += 1
+        acc.extra["executions_without_pruning"] += obs[False][1]
+        if not same:
+            acc.violation(sig=dict(what="pruned exploration misses terminal observations (harness soundness)", tier="prune"), case=dict(sc=sc, choices=[]),
+                          observed=dict(only_unpruned=sorted(map(str, obs[False][0] - obs[True][0]))[:5], only_pruned=sorted(map(str, obs[True][0] - obs[False][0]))[:5]),
+                          msg=f"pruning changes the set of terminal observations for scenario {sc}")
+
+
 def real_trace_batch(acc, batch, prop=None):
     from mc import realtier
 
@@ -64,6 +94,10 @@ def run_pool(ctx, module, prop):
     ctx.pmap(module, "pool_batch", small, chunk=2, prop=prop, bound=bound)
     if big:
         ctx.pmap(module, "pool_batch", big, chunk=2, prop=prop, bound=1)
+    # ---- pruning validated against unpruned exploration on a slice of the scenarios (small ones: unpruned is exponential)
+    pv = [s for s in small if len(s["tasks"]) <= 2 and s.get("via") != "multi"][:: (6 if quick else 2)]
+    ctx.pmap(module, "prune_validation_batch", pv, chunk=1, prop=prop, bound=bound if quick else 1)
+    ctx.notes.setdefault("coverage_extra", {})["prune_validated_scenarios"] = len(pv)
     # ---- real-loop / real-process tier: bind the fake processes and the virtual clock back to reality
     from mc import realtier
 
